@@ -207,4 +207,22 @@ theorem splitLastDot_spec (f before after : List Char) (h : splitLastDot f = som
       simpa using this
     · intro hm; exact mem_takeWhile_ne f.reverse (List.mem_reverse.mp hm)
 
+theorem searchClean_foldl_no_parent : ∀ (cs acc : List Comp), .parent ∉ acc →
+    .parent ∉ cs.foldl searchCleanStep acc := by
+  intro cs
+  induction cs with
+  | nil => intro acc h; exact h
+  | cons c rest ih =>
+    intro acc h
+    apply ih
+    cases c with
+    | parent =>
+      simp only [searchCleanStep]
+      split
+      · rename_i s rest' ; intro hm; exact h (List.mem_cons_of_mem _ hm)
+      · exact h
+    | root => simpa [searchCleanStep] using h
+    | cur => simpa [searchCleanStep] using h
+    | normal s => simpa [searchCleanStep] using h
+
 end Just.Path
